@@ -40,6 +40,7 @@ func VfC15_History() {
 	set := NewSet()
 	members := map[string]*Host{}
 	var seen []*Host // every host object that was ever a member (what a monitor may still hold)
+	var snaps []vfSnap
 	nd.PanicLabel("host-set")
 	for s := 0; s < steps; s++ {
 		op := nd.Concrete(nd.IntRange("op", 0, 4))
@@ -134,9 +135,20 @@ func VfC15_History() {
 			nd.Assert(!vfRemoved(g), "a removed host is never reported as usable")
 		}
 		nd.Assert(set.Len() == len(members), "member count")
+		// a list handed out earlier (a connection being balanced, a SCAN in progress, a monitor
+		// round) is not rewritten by later mutations of the set
+		for _, sn := range snaps {
+			nd.Assert(len(sn.list) == len(sn.was), "a list of usable hosts handed out earlier keeps its content while the set changes")
+			for i := 0; i < len(sn.list) && i < len(sn.was); i++ {
+				nd.Assert(sn.list[i] == sn.was[i], "a list of usable hosts handed out earlier keeps its content while the set changes")
+			}
+		}
+		snaps = append(snaps, vfSnap{list: got, was: append([]*Host(nil), got...)})
 	}
 	nd.Cover("history-done")
 }
+
+type vfSnap struct{ list, was []*Host }
 
 func vfRemoved(h *Host) bool {
 	select {
